@@ -26,7 +26,7 @@ import (
 
 type NetOp struct {
 	Node       string    `json:"node"` // L | L2 | R
-	Op         string    `json:"op"`   // commit | fetch | push | pull | merge | rtag | leftover | diamond (uneven merge built on the node) | pullall (pull --all) | pushall (push --all)
+	Op         string    `json:"op"`   // commit | fetch | push | pull | merge | branch (create BRANCH at remote-tracking ref Other) | rtag | leftover | diamond (uneven merge built on the node) | pullall (pull --all) | pushall (push --all)
 	Branch     string    `json:"branch,omitempty"`
 	Variant    int       `json:"variant,omitempty"`
 	Force      bool      `json:"force,omitempty"`
@@ -109,6 +109,20 @@ func genNetPlan(r *Rand, tier string, focus string, faults bool) NetPlan {
 			}
 			p.Ops = append(p.Ops, NetOp{Node: "L", Op: "fetch"},
 				NetOp{Node: "L", Op: "merge", Branch: b, Other: "origin/" + b, FF: Pick(r, []string{"", "ff", "ff-only"}), Form: Pick(r, netForms)})
+			continue
+		}
+		if focus == "C10" && r.Chance(0.07) {
+			// a branch whose own name starts with "heads/" (ref heads/heads/rel) next to the branch rel: both start at
+			// the remote's main, both get a commit of their own, the remote moves on, and the remote-tracking ref is
+			// merged into heads/rel with a merge commit - which must land on heads/rel and leave rel alone
+			p.Ops = append(p.Ops, NetOp{Node: "L", Op: "fetch"},
+				NetOp{Node: "L", Op: "branch", Branch: "heads/rel", Other: "origin/main"},
+				NetOp{Node: "L", Op: "branch", Branch: "rel", Other: "origin/main"},
+				NetOp{Node: "L", Op: "commit", Branch: "heads/rel", Variant: 1 + r.Intn(5)},
+				NetOp{Node: "L", Op: "commit", Branch: "rel", Variant: 1 + r.Intn(5)},
+				NetOp{Node: "R", Op: "commit", Branch: "main", Variant: r.Intn(6)},
+				NetOp{Node: "L", Op: "fetch"},
+				NetOp{Node: "L", Op: "merge", Branch: "heads/rel", Other: "origin/main", FF: Pick(r, []string{"", "no-ff", "no-ff"}), Form: Pick(r, []string{"heads", "refs"})})
 			continue
 		}
 		if focus == "C10" && r.Chance(0.08) {
@@ -639,6 +653,9 @@ func execNet(t *testing.T, raw json.RawMessage, res *Result, focus string) {
 				validBranch = true
 			}
 		}
+		if op.Branch == "heads/rel" && op.Node != "R" && (op.Op == "branch" || op.Op == "commit" || (op.Op == "merge" && (op.Form == "heads" || op.Form == "refs"))) {
+			validBranch = true // a local branch named heads/rel; only by unambiguous spellings
+		}
 		switch op.Op {
 		case "commit":
 			if !validBranch {
@@ -986,6 +1003,19 @@ func execNet(t *testing.T, raw json.RawMessage, res *Result, focus string) {
 			if op.Upstream {
 				args = append(args, "--set-upstream")
 			}
+		case "branch":
+			// wrgl branch create BRANCH START (skipped when the start does not exist or the branch already does)
+			if !validBranch || op.Node == "R" {
+				res.Invalid("branch op")
+				return
+			}
+			if _, ok := refsBefore["remotes/"+op.Other]; !ok {
+				continue
+			}
+			if _, ok := refsBefore["heads/"+op.Branch]; ok {
+				continue
+			}
+			args = []string{"branch", "create", op.Branch, op.Other}
 		case "merge":
 			if !validBranch {
 				res.Invalid("branch")
